@@ -23,10 +23,10 @@ Proof. exact session_buffer_is_accept. Qed.
 Print Assumptions C05_session_dedupe.
 
 (* decrypt(): the handler is handed exactly the extraction trace, in order ... *)
-Theorem C05_handler_sees_trace : forall C tbl parts keylog meta sip sport ps st st',
-  get_tls_records C tbl parts keylog meta sip sport st ps = Ok st' ->
-  exists tr, gtr_trace sip sport (rs_server_pbuf st) (rs_client_pbuf st) ps = Ok (rs_server_pbuf st', rs_client_pbuf st', tr) /\
-             handle_trace C tbl parts keylog meta (rs_core st) tr = Ok (rs_core st').
+Theorem C05_handler_sees_trace : forall C tbl parts keylog sip sport ps st st',
+  get_tls_records C tbl parts keylog sip sport st ps = Ok st' ->
+  exists tr em, gtr_trace sip sport (rs_server_pbuf st) (rs_client_pbuf st) ps = Ok (rs_server_pbuf st', rs_client_pbuf st', tr) /\
+             handle_trace C tbl parts keylog (rs_core st) tr = Ok (rs_core st', em) /\ rs_traffic st' = rs_traffic st ++ em.
 Proof. exact gtr_is_trace. Qed.
 Print Assumptions C05_handler_sees_trace.
 
